@@ -50,7 +50,8 @@ def doc_lines(L: Dict[str, Any]) -> List[str]:
     fmt, prob, pos = L["fmt"], L["prob"], L["pos"]
     tok = token(fmt, prob)
     t = lambda p: (" " + tok) if (pos == p and tok) else ""
-    lines = ["Summary line one%s" % t("p1"), "summary line two.", "",
+    lead = ["Section Title", "=============", ""] if L.get("lead") == "title" else []
+    lines = lead + ["Summary line one%s" % t("p1"), "summary line two.", "",
              "Second paragraph line one", "second line%s end." % t("p2l2"), ""]
     if fmt == "epytext":
         lines += ["  - item line one", "    item line two%s" % t("item"), ""]
@@ -133,7 +134,10 @@ def render(L: Dict[str, Any]) -> Tuple[str, Dict[str, int]]:
         rest = lines
         text0 = quote + 1 + L["blanks"]
     out += [(body_ind + s) if s else "" for s in rest]
-    out.append(body_ind + '"""')
+    if L.get("tight"):
+        out[-1] += '"""'                         # closing quotes on the last line of text
+    else:
+        out.append(body_ind + '"""')
     close = len(out)
     if kind == "class":
         out += [q_ind + "def __init__(self, %s):" % ("a, b=1, c=2" if L.get("typed") else "a"), q_ind + '    """Init."""']
@@ -243,6 +247,33 @@ def run_pydoctor(root: str, target: str, args: List[str], expr_fault: bool = Fal
             "violations": system.violations if system is not None else -1}
 
 
+def job_has_history(root: str) -> bool:
+    """Every third batch is also run through the other history."""
+    return int(root.rsplit("_", 1)[1]) % 3 == 0
+
+
+def render_only(pkg: str, fmt: str) -> Dict[str, List[int]]:
+    """History "render": the bodies of all docstrings of the package rendered through the API, no summary extracted before
+    (driver.main is the history "summary;render": summary tables are written before the bodies)."""
+    from pydoctor import model, epydoc2stan
+    system = model.System()
+    system.options.docformat = fmt
+    buf = io.StringIO()
+    with contextlib.redirect_stdout(buf), contextlib.redirect_stderr(io.StringIO()):
+        b = system.systemBuilder(system)
+        b.addModule(Path(pkg))
+        b.buildModules()
+        for ob in list(system.allobjects.values()):
+            if ob.isVisible:
+                epydoc2stan.format_docstring(ob)
+    out: Dict[str, List[int]] = {}
+    for line in buf.getvalue().splitlines():
+        m = PROBLEM_RE.match(line)
+        if m and m.group(1).endswith(".py") and m.group(2).isdigit():
+            out.setdefault(os.path.basename(m.group(1)), []).append(int(m.group(2)))
+    return out
+
+
 def _lines_batch(job: Tuple[str, str, List[Dict[str, Any]]]) -> Dict[str, Any]:
     """Worker: one package of modules (one per layout record) in one docformat, one pydoctor run."""
     root, fmt, recs = job
@@ -261,12 +292,14 @@ def _lines_batch(job: Tuple[str, str, List[Dict[str, Any]]]) -> Dict[str, Any]:
         Path(pkg, name).write_text(src)
         names[name] = rec
     r = run_pydoctor(root, pkg, ["--docformat=" + fmt])
+    alone = render_only(pkg, fmt) if job_has_history(root) else None
     shutil.rmtree(root, ignore_errors=True)
     obs = []
     for name, rec in names.items():
         got = r["per_file"].get(name, [])
         paths = {g[2] for g in got}
         obs.append({"lay": rec["lay"], "lines": [g[0] for g in got], "msgs": [g[1] for g in got],
+                    "alone": None if alone is None else sorted(alone.get(name, [])),
                     "path_ok": all(p == os.path.join(pkg, name) for p in paths)})
     extra = sum(len(v) for k, v in r["per_file"].items() if k not in names)
     return {"obs": obs, "rc": r["rc"], "events": r["events"], "violations": r["violations"], "nprob": r["nprob"],
@@ -299,6 +332,11 @@ def exit_project(root: str, run: Dict[str, Any]) -> Tuple[str, int, bool]:
         head = ['"""Module."""', "import re", '__docformat__ = "%s"' % ("epytext" if epy else "restructuredtext"), ""]
         if shape == "func":
             src = head + ["def f(a%s):" % (", sigboom_param" if c["expr"] else "")] + doc + [""]
+        elif shape in ("dup", "dup2"):      # the class is defined twice: one definition carries the problems, the other is clean
+            clean = ['    """', "    Clean definition.", '    """']
+            first, second = (doc, clean) if shape == "dup" else (clean, doc)
+            src = (head + ["class K%d:" % i] + first + ["    def meth(self, a):", '        """Method."""', ""]
+                   + ["class K%d:" % i] + second + ["    def meth(self, a):", '        """Method."""', ""])
         else:       # the problems sit in the class's own docstring
             src = head + ["class K%d:" % i] + doc + ["    def meth(self, a):", '        """Method."""', ""]
         if c["expr"]:
@@ -327,8 +365,14 @@ def _exit_job(job: Tuple[str, Dict[str, Any]]) -> Dict[str, Any]:
     args = (["-W"] if run["W"] else []) + (["-q"] if run["V"] == -1 else [])
     r = run_pydoctor(root, pkg, args, expr_fault=expr)
     shutil.rmtree(root, ignore_errors=True)
+    # which file each problem line names: object i's docstring lives in m<i>.py, or _impl<i>.py when it is re-exported
+    named = []
+    for i, c in enumerate(run["cfg"], 1):
+        fn = ("_impl%d.py" if c.get("shape") == "reexp" else "m%d.py") % i
+        named.append(len(r["per_file"].get(fn, [])))
     return {"run": run, "rc": r["rc"], "violations": r["violations"], "nprob": r["nprob"], "events": r["events"],
-            "planted": planted, "W": run["W"], "V": run["V"],
+            "planted": planted, "W": run["W"], "V": run["V"], "named": named,
+            "misnamed": sorted({g[2] for k, v in r["per_file"].items() for g in v} - {os.path.join(pkg, ("_impl%d.py" if c.get("shape") == "reexp" else "m%d.py") % i) for i, c in enumerate(run["cfg"], 1)}),
             "planted_unparsed": any(c["nerr"] > 0 or c["expr"] for c in run["cfg"])}
 
 
@@ -369,7 +413,7 @@ def kf_napoleon_beyond(w: Dict[str, Any]) -> bool:
     produced (one extra :type: line per entry) lies past the closing quotes of the docstring."""
     lay, exp = w.get("layout") or {}, w.get("expected") or {}
     got = w.get("observed", {}).get("lines") or []
-    return (w.get("invariant") == "ObsAcceptable" and bool(lay.get("typed")) and lay.get("fmt") in ("google", "numpy")
+    return (w.get("invariant") == "ObsAcceptable" and bool(lay.get("typed") or lay.get("tight")) and lay.get("fmt") in ("google", "numpy")
             and len(got) == 1 and exp["hi"] < got[0] <= exp["hi"] + 4)
 
 
@@ -379,7 +423,7 @@ def lines_cfg(ctx: Ctx, source: str) -> str:
         ks, inds = "{0, 7}", "{0, 2}"
     else:
         ks, inds = "{0, 1, 7}", "{0, 1, 2}"
-    inv = ("INVARIANT DocstringLineRight\nINVARIANT ImplAcceptable\nINVARIANT ImplShift\n" if source == "enum"
+    inv = ("INVARIANT DocstringLineRight\nINVARIANT ImplAcceptable\nINVARIANT ImplShift\nINVARIANT HistoryIndependent\n" if source == "enum"
            else "INVARIANT DocstringLineRight\n")
     return f"""SPECIFICATION Spec
 CONSTANTS Source = "{source}"
@@ -396,7 +440,7 @@ CONSTRAINT Emit
 
 def exit_cfg(source: str, objs: str, rich: str, interleave: bool) -> str:
     inv = ("INVARIANT EveryReportCounted\nINVARIANT ExitW\nINVARIANT ExitNoW\nINVARIANT NothingLost\n"
-           + ("INVARIANT StaleStillCounts\n" if source == "enum" else ""))
+           + ("INVARIANT StaleStillCounts\nINVARIANT NamesTheFile\n" if source == "enum" else ""))
     tail = "CONSTRAINT EmitTerminal\n" if source == "enum" else "CONSTRAINT Accept\nPOSTCONDITION Post\n"
     return f"""SPECIFICATION Spec
 CONSTANTS Source = "{source}"
@@ -439,6 +483,7 @@ def run(ctx: Ctx) -> int:
     observations: List[Dict[str, Any]] = []
     traces: List[Dict[str, Any]] = []
     drift = 0
+    histories = 0
     drift_classes: Dict[str, int] = {}
     for res in results:
         if res["extra"]:
@@ -455,23 +500,31 @@ def run(ctx: Ctx) -> int:
         exp = {"lo": rec["lo"], "hi": rec["hi"], "first": rec["first"], "at": rec["at"], "impl": rec["impl"]}
         wit = {"layout": o["lay"], "expected": exp, "observed": {"lines": o["lines"], "msgs": o["msgs"]},
                "key": "lines:%s:%s:%s:%s:%s%s" % (o["lay"]["fmt"], o["lay"]["prob"], o["lay"]["pos"], o["lay"]["kind"],
-                                                 "typed" if o["lay"]["typed"] else "", "longws" if o["lay"]["longws"] else "")}
+                                                 "typed" if o["lay"]["typed"] else "", "longws" if o["lay"]["longws"] else "")
+               + ("title" if o["lay"].get("lead") == "title" else "") + ("tight" if o["lay"].get("tight") else "")}
         if len(o["lines"]) != 1:
             ctx.violation({"invariant": "ObsOne", **wit})          # the planted problem lost, or reported twice
         elif not o["path_ok"]:
             ctx.violation({"invariant": "NamesTheFile", **wit})
         elif not (rec["lo"] <= o["lines"][0] <= rec["hi"]):
             ctx.violation({"invariant": "ObsAcceptable", **wit})
+        if o.get("alone") is not None:
+            histories += 1
+            if o["alone"] != sorted(o["lines"]):          # the same docstring, the other order of summary / body
+                ctx.violation({"invariant": "HistoryIndependent", **wit, "observed": {"lines": o["lines"], "render_alone": o["alone"], "msgs": o["msgs"]},
+                               "key": "hist:" + wit["key"]})
         if len(o["lines"]) == 1 and o["lines"][0] != rec["impl"]:
             drift += 1
             ctx.drift_note({"layout": o["lay"], "model": rec["impl"], "real": o["lines"][0]})
             dk = "%s/%s/%s/args=%s/typed=%s/longws=%s: real-model=%d" % (
                 o["lay"]["fmt"], o["lay"]["prob"], o["lay"]["pos"], o["lay"]["kind"] in ("function", "method", "class"),
-                o["lay"]["typed"], o["lay"]["longws"], o["lines"][0] - rec["impl"])
+                o["lay"]["typed"], str(o["lay"]["longws"]) + "/" + o["lay"].get("lead", "") + "/tight=%s" % o["lay"].get("tight"),
+                o["lines"][0] - rec["impl"])
             drift_classes[dk] = drift_classes.get(dk, 0) + 1
         if o["id"] % 1500 == 1:
             ctx.sample({"layout": o["lay"], "accepted": [rec["lo"], rec["hi"]], "model": rec["impl"], "printed": o["lines"], "msg": o["msgs"][:1]})
     ctx.extra["lines_model_vs_code_mismatches"] = drift
+    ctx.extra["layouts_run_in_both_histories"] = histories
     ctx.extra["lines_drift_classes"] = drift_classes
 
     # ================================================================= Lines: code -> spec (TLC judges the observations)
@@ -535,12 +588,14 @@ def run(ctx: Ctx) -> int:
         ctx.traces += 1
         x = er["run"]
         bad = judge_exit(er["rc"], er["W"], er["nprob"], er["violations"], er["planted"], er["planted_unparsed"])
+        if er["misnamed"] or sum(er["named"]) != er["nprob"]:
+            bad.append("NamesTheFile")            # a problem line names a file that does not contain the docstring at fault
         if bad:
-            ctx.violation({"invariant": bad[0], "failed": bad, "run": x,
+            ctx.violation({"invariant": bad[0], "failed": bad, "run": x, "misnamed": er["misnamed"],
                            "observed": {"exit": er["rc"], "violations": er["violations"], "problem_lines": er["nprob"]},
                            "expected": {"planted": er["planted"], "unparsed": er["planted_unparsed"]},
                            "key": "exit:%s:W=%s:%s" % (bad, er["W"], sorted(str(k) + ("=" + v if k == "shape" else "") for c in x["cfg"] for k, v in c.items() if v and k != "fmt"))})
-        if (er["rc"], er["violations"], er["nprob"]) != (x["exit"], x["violations"], x["printed"]):
+        if (er["rc"], er["violations"], er["nprob"], er["named"]) != (x["exit"], x["violations"], x["printed"], x["named"]):
             exit_drift += 1
             ctx.drift_note({"run": x, "real": {"exit": er["rc"], "violations": er["violations"], "printed": er["nprob"]}})
         traces.append({"W": er["W"], "V": er["V"], "ev": er["events"], "planted": er["planted"], "rc": er["rc"],
@@ -712,6 +767,9 @@ def replay(ctx: Ctx, path: str) -> int:
     elif "run" in w:
         er = _exit_job((str(ctx.scratch / "R"), w["run"]))
         bad = judge_exit(er["rc"], er["W"], er["nprob"], er["violations"], er["planted"], er["planted_unparsed"])
+        if er["misnamed"] or sum(er["named"]) != er["nprob"]:
+            bad.append("NamesTheFile")
+        print("replay: files named that hold no planted docstring:", er["misnamed"])
         print("replay: exit", er["rc"], "violations", er["violations"], "problem lines", er["nprob"], "planted", er["planted"])
     else:
         print("replay: witness of a whole batch, re-run the check")
